@@ -35,7 +35,9 @@ Next == AddEdge
 EdgeList == LET ranks == {Rank(p, n) : p \in g} IN
             [i \in 1..Cardinality(g) |->
                CHOOSE p \in g : Cardinality({q \in g : Rank(q, n) < Rank(p, n)}) = i - 1]
-Wrapper(i) == IF mixed THEN ((v + i - 2) % 9) + 1 ELSE v
+\* (10..13: wrappers inside wrappers - Sequence<Sequence<T>>, Dictionary<string, Sequence<T>>, Sequence<Result<T, string>>,
+\*  Result<Sequence<T>?, int32>)
+Wrapper(i) == IF mixed THEN ((v + i - 2) % 13) + 1 ELSE v
 
 Emit == PrintT(<<"CASE", ToJson([family |-> Family, n |-> n,
                                  edges |-> [i \in 1..Cardinality(g) |-> [a |-> EdgeList[i][1], b |-> EdgeList[i][2], w |-> Wrapper(i)]],
